@@ -107,8 +107,8 @@ type C01Case struct {
 	// MayFail: the configuration holds times that a format's fields may be unable to hold - refusing to build is
 	// accepted; a package that is built is judged like any other
 	MayFail bool `json:"may_fail,omitempty"`
-	// Spell: how the numbers of the document (mode, umask) are written: "" = decimal, "0" = 0644, "0o" = 0o644,
-	// "0x" = 0x1a4, "0b" = 0b110100100
+	// Spell: the YAML spelling of the document (see respellText): json | crlf | bom | comments | tz, or how its numbers
+	// (mode, umask) are written: "0" = 0644, "0o" = 0o644, "0x" = 0x1a4, "0b" = 0b110100100
 	Spell string `json:"number_spelling,omitempty"`
 }
 
@@ -286,6 +286,23 @@ func init() {
 				}
 				if !yield(C01Case{Setting: s, List: fr}) {
 					return
+				}
+			}
+			// the same documents in other YAML spellings: flow style with every string quoted, CRLF line ends, a byte order
+			// mark with document markers, comments, timestamps with a zone offset
+			for _, sp := range []string{"json", "crlf", "bom", "comments", "tz"} {
+				for _, e := range all {
+					if !yield(C01Case{Setting: sets[0], List: []model.Entry{e}, Spell: sp}) {
+						return
+					}
+				}
+				for _, s := range sets[1:] {
+					if s.Only != "" && !env.Thorough() {
+						continue
+					}
+					if !yield(C01Case{Setting: s, List: []model.Entry{all[0], all[2], all[4], all[5], all[6]}, Spell: sp}) {
+						return
+					}
 				}
 			}
 			// the notations a number may be written in (a mode is usually written 0644 or 0o644)
@@ -554,9 +571,9 @@ func checkC01(env *engine.Env, ci any) engine.Outcome {
 	}
 	text := doc.YAML()
 	if c.Spell != "" {
-		respelt := respellNumbers(text, c.Spell)
-		if respelt == text {
-			out.HarnessError = "number spelling " + c.Spell + ": the document holds no mode or umask to respell:\n" + text
+		respelt, rerr := respellText(text, c.Spell)
+		if rerr != nil || respelt == text {
+			out.HarnessError = fmt.Sprintf("spelling %s: %v / nothing to respell in:\n%s", c.Spell, rerr, text)
 			return out
 		}
 		text = respelt
